@@ -21,7 +21,7 @@ def build_phase(ctx, spec, derive_style=0):
   fn = bodies.make_body(ctx, spec)
   o = spec['opts']
   kw = {}
-  if getattr(ctx, 'share_function', False) and not spec.get('monitor'):
+  if getattr(ctx, 'share_function', False) and not spec.get('monitor') and not spec.get('bare'):
     # every such phase is built on the same function object; the phase name comes from an option
     if ctx.shared_fn is None:
       ctx.shared_fn = bodies.make_shared_body(ctx)
